@@ -1110,16 +1110,28 @@ package restful
 //@ modifies ghost $g.own.puts
 //@ nopanic
 
+//@ func ext:compress/gzip.NewWriterLevel
+//@ props C13
+//@ trusted A-CODEC: a writer for every valid compression level (-2 … 9), an error otherwise
+//@ modifies nothing
+//@ ensures valid: -2 <= level && level <= 9 ==> result1 == nil && result0 != nil && fresh(result0)
+//@ nopanic
+
+//@ func ext:compress/zlib.NewWriterLevel
+//@ props C13
+//@ trusted A-CODEC: a writer for every valid compression level (-2 … 9), an error otherwise
+//@ modifies nothing
+//@ ensures valid: -2 <= level && level <= 9 ==> result1 == nil && result0 != nil && fresh(result0)
+//@ nopanic
+
 //@ func newGzipWriter
 //@ props C13
-//@ trusted not verified: wraps gzip.NewWriterLevel (dependency); returns a new writer
 //@ ensures result != nil && fresh(result)
 //@ modifies nothing
 //@ nopanic
 
 //@ func newZlibWriter
 //@ props C13
-//@ trusted not verified: wraps zlib.NewWriterLevel (dependency); returns a new writer
 //@ ensures result != nil && fresh(result)
 //@ modifies nothing
 //@ nopanic
